@@ -97,12 +97,11 @@ Theorem C18_dat_order_inverse :
 Proof. exact dat_order_inverse. Qed.
 Print Assumptions C18_dat_order_inverse.
 
-(* lazy = eager, LazyCall without extra entries.  The hypothesis nbatches <= mx is needed on the
-   current tree (see C18_lazy_max_iter_refuted).  With extra entries the statement
-   C18_lazy_full_statement below is tied by the correspondence only. *)
+(* lazy = eager, LazyCall without extra entries: any number of batches.  With extra entries the
+   statement C18_lazy_full_statement below is tied by the correspondence only. *)
 Theorem C18_lazy_eq_eager_partial :
   forall fn mx b n x, commutes fn ->
-    0 < b -> 0 < n -> uniform n x -> has_leaf x = true -> nbatches n b <= mx ->
+    0 < b -> 0 < n -> uniform n x -> has_leaf x = true ->
     merge_all (lazy_batches fn mx b x empty_dict) = Some (lazy_eval fn x empty_dict).
 Proof. exact lazy_eq_eager. Qed.
 Print Assumptions C18_lazy_eq_eager_partial.
@@ -110,15 +109,14 @@ Definition C18_lazy_full_statement : Prop :=
   forall fn mx b n x extra, commutes fn ->
     0 < b -> 0 < n -> uniform n x -> has_leaf x = true -> uniform n extra ->
     merge_all (lazy_batches fn mx b x extra) = Some (lazy_eval fn x extra).
-(* missing: merging position-wise commutes with {**a, **b} when all f(x_i) have the same keys;
-   and false as it stands for extra = {} with more than MAX_ITER batches: *)
-(* FINDING (current tree): LazyCall.__iter__ splits self.extra on its own; an empty extra holds no
-   array, so it yields MAX_ITER copies only and zip() stops the iteration after MAX_ITER batches *)
-Theorem C18_lazy_max_iter_refuted :
+(* missing: merging position-wise commutes with {**a, **b} when all f(x_i) have the same keys *)
+(* F14 (repaired by d64dc15): the empty extra used to be split on its own (MAX_ITER copies of {}),
+   which ended the iteration after MAX_ITER batches; the current iteration does not *)
+Example C18_old_lazy_max_iter :
   exists fn mx b x, commutes fn /\ uniform 3 x /\ has_leaf x = true /\
-    merge_all (lazy_batches fn mx b x empty_dict) <> Some (lazy_eval fn x empty_dict).
-Proof. exact lazy_max_iter_refuted. Qed.
-Print Assumptions C18_lazy_max_iter_refuted.
+    merge_all (lazy_batches_old fn mx b x empty_dict) <> Some (lazy_eval fn x empty_dict) /\
+    merge_all (lazy_batches fn mx b x empty_dict) = Some (lazy_eval fn x empty_dict).
+Proof. exact old_lazy_max_iter. Qed.
 
 (* ---- observation ---- *)
 (* F10: a structure without any array splits into MAX_ITER empty pieces *)
